@@ -20,7 +20,7 @@ MS = {0: "inv", 1: "pub", 2: "wpa", 3: "wprec", 4: "rprel", 5: "wprel", 6: "rpco
 
 
 def parse_cfg(words):
-    cfg = dict(proto=4, clean=1, N=20, M=0, manual=0, rof=1, ext=0, ka=60, sup=0, cbpub=-1, cbn=0, cbw=0)
+    cfg = dict(proto=4, clean=1, N=20, M=0, manual=0, rof=1, ext=0, ka=60, sup=0, cbpub=-1, cbn=0, cbw=0, cbop=0)
     for w in words:
         k, _, v = w.partition("=")
         if k in cfg:
@@ -78,9 +78,17 @@ class RealSession:
             # the application publishes from inside a callback (stream `reentry`, no Lean model)
             if cfg.get("cbpub", -1) >= 0 and self.cb_left > 0:
                 self.cb_left -= 1
-                info = cl.publish("cb/t", b"cb", cfg["cbpub"])
-                self.infos.append(info)
-                ev.append(f"cbpub:{cfg['cbpub']}:{int(info.rc)}:{info.mid}")
+                what = cfg.get("cbop", 0)
+                if what == 1:
+                    r, mid = cl.subscribe("cb/s", 1)
+                    ev.append(f"cbsub:{int(r)}:{mid}")
+                elif what == 2:
+                    r, mid = cl.unsubscribe("cb/s")
+                    ev.append(f"cbunsub:{int(r)}:{mid}")
+                else:
+                    info = cl.publish("cb/t", b"cb", cfg["cbpub"])
+                    self.infos.append(info)
+                    ev.append(f"cbpub:{cfg['cbpub']}:{int(info.rc)}:{info.mid}")
         self.nested = nested
 
         def on_publish(cl, ud, mid):
@@ -562,12 +570,12 @@ class ReentryStream(SessionStream):
     (callbacks that call back into the client are outside the session model); the independent monitors judge the real
     client's behaviour (C12 window / FIFO release, C13 order, C01 exactly-once)"""
     name = "reentry"
-    props = ["C01", "C12", "C13"]
+    props = ["C01", "C12", "C13", "C18"]
     has_model = False
 
     def gen(self, rng, tier):
         case = gen_case(rng, tier)
-        cfg = case[0] + f" cbpub={rng.choice([1, 1, 2])} cbn={rng.choice([1, 2, 3])} cbw={rng.choice([0, 0, 1, 2])}"
+        cfg = case[0] + f" cbpub={rng.choice([1, 1, 2])} cbn={rng.choice([1, 2, 3])} cbw={rng.choice([0, 0, 1, 2])} cbop={rng.choice([0, 0, 0, 1, 2])}"
         # small windows make the release order visible
         if rng.random() < 0.7:
             cfg = " ".join((f"N={rng.choice([1, 1, 2])}" if w.startswith("N=") else "ext=0" if w.startswith("ext=") else w) for w in cfg.split())
